@@ -119,7 +119,8 @@ def as_int(v):
 
 
 OPS_TRAITS = {'std::ops::BitOr': ('bitor', 'BitOr'), 'std::ops::BitAnd': ('bitand', 'BitAnd'), 'std::ops::BitXor': ('bitxor', 'BitXor'),
-              'std::ops::Add': ('add', 'Add'), 'std::ops::Sub': ('sub', 'Sub'), 'std::ops::Mul': ('mul', 'Mul')}
+              'std::ops::Add': ('add', 'Add'), 'std::ops::Sub': ('sub', 'Sub'), 'std::ops::Mul': ('mul', 'Mul'),
+              'std::ops::Shr': ('shr', 'Shr'), 'std::ops::Shl': ('shl', 'Shl')}
 OPS_ASSIGN_TRAITS = {'std::ops::BitOrAssign': ('bitor_assign', 'BitOr'), 'std::ops::BitAndAssign': ('bitand_assign', 'BitAnd'), 'std::ops::BitXorAssign': ('bitxor_assign', 'BitXor'),
                      'std::ops::AddAssign': ('add_assign', 'Add'), 'std::ops::SubAssign': ('sub_assign', 'Sub'), 'std::ops::MulAssign': ('mul_assign', 'Mul')}
 PRIM_INTS = ('u8', 'u16', 'u32', 'u64', 'u128', 'usize', 'i8', 'i16', 'i32', 'i64', 'i128', 'isize')
